@@ -17,6 +17,7 @@ import (
 
 	"verif/enum"
 	"verif/ev"
+	"verif/pre"
 )
 
 const M = ^uint32(0)
@@ -361,16 +362,9 @@ func checkRing(u universe, rc ringCase, n, idx int, rep *ev.Report, now time.Tim
 	for _, rf := range u.rfs {
 		for _, za := range []bool{false, true} {
 			r := rs.get(rf, za)
-			// the client first sees the same instances (same tokens and zones) all ACTIVE with a fresh heartbeat, then
-			// the ring under test: when only states and heartbeats differ the client keeps its token index — answers
-			// must be those of the current content all the same
-			pre := rc.desc(now)
-			for id, in := range pre.Ingesters {
-				in.State, in.Timestamp = ring.ACTIVE, now.Unix()
-				pre.Ingesters[id] = in
-			}
-			r.VerifUpdateRingState(pre)
-			r.VerifUpdateRingState(rc.desc(now))
+			// installed on top of earlier versions of itself: all-ACTIVE (state-only update path), zone-relabelled,
+			// token-shifted (see package pre) — answers must be those of the current content all the same
+			pre.Install(r, rc.desc(now), now)
 			for _, o := range ops {
 				for _, key := range keys {
 					want := sp.lookup(key, o.name, rf, za)
